@@ -888,8 +888,14 @@ package saml
 //@ -- layout, and every accepted instant is rounded to the millisecond; empty text is the zero instant
 //@ contract (RelaxedTime).String
 //@ ensures[C15,C02] canonical: result == time.Time(m).Round(time.Millisecond).UTC().Format(timeFormat)
+//@ -- the instant an accepted text denotes: the first of the three layouts that parses it, rounded to the millisecond
+//@ go func parsedInstant(text string) time.Time {
+//@    t, e := time.Parse(time.RFC3339, text); if e == nil { return t }
+//@    t, e = time.Parse(time.RFC3339Nano, text); if e == nil { return t }
+//@    t, _ = time.Parse("2006-01-02T15:04:05.999999999", text); return t }
 //@ contract (*RelaxedTime).UnmarshalText
 //@ ensures[C15,C02] empty_is_zero: len(text) == 0 ==> err == nil
+//@ ensures[C15,C02,C18] value: err == nil && len(text) > 0 ==> time.Time(*m) == parsedInstant(string(text)).Round(time.Millisecond)
 //@ -- every accepted layout is read by time.Parse, i.e. a text without zone designator is taken as UTC, never as the host's
 //@ -- local zone (freshness of responses, assertions and logout responses is decided on these instants: C02, C18)
 //@ assert@call[C15,C02,C18] Parse #1 (layout string, value string) first_layout: layout == time.RFC3339 && value == string(text)
